@@ -37,3 +37,20 @@ func gsxC14SizeOf() {
 		gsxrt.Assert(s2 == sizes.Sizeof(t2), "size: SizeOf of a type depends on the types sized before it")
 	}
 }
+
+// gsxC05SizeOf: asking for the size of a type leaves the shared context as it was (the
+// context is documented as read-only state shared by every checker, and C04's
+// independence of schedules rests on that).
+func gsxC05SizeOf() {
+	sizes := types.SizesFor("gc", "amd64")
+	ctx := NewContext(token.NewFileSet(), sizes)
+	ctx.SetPackageInfo(&types.Info{}, types.NewPackage("p", "p"))
+	a := &CheckerContext{Context: ctx}
+	var t1 types.Type
+	gsxrt.Lazy("t1", 2, &t1)
+	gsxrt.Assume(t1 != nil)
+	gsxrt.Protect("context", ctx)
+	a.SizeOf(t1)
+	gsxrt.Unprotect(ctx)
+	gsxrt.Reached("sized")
+}
